@@ -351,6 +351,15 @@ def check_unit_typestate(run, f, rule='R10u'):
     reach = cfg.reachable()
     # dataflow: name -> state in {'raw','conv','mixed'}; names not in map are not angles
     init = {s: 'raw' for s in seeds}
+    # the angle family: names that receive angle-derived values somewhere in the function (a literal default bound to such a name
+    # on another path -- angle = 1 if theta is None else getunit(theta, units) -- needs no conversion)
+    family = set(seeds)
+    for _ in range(4):
+        for st_ in own_walk(f.node):
+            if isinstance(st_, ast.Assign) and any(isinstance(y, ast.Name) and y.id in family for y in ast.walk(st_.value)):
+                for t in st_.targets:
+                    if isinstance(t, ast.Name):
+                        family.add(t.id)
 
     def state_of(e, env, comp_env=None):
         """state of the angle content of expression e: None (no angle), 'raw', 'conv', 'mixed'"""
@@ -388,7 +397,7 @@ def check_unit_typestate(run, f, rule='R10u'):
         env = dict(env)
         if node.kind == 'stmt' and isinstance(a, ast.Assign):
             st = assign_state(a.value, env)
-            if isinstance(a.value, ast.Constant) and any(isinstance(t, ast.Name) and t.id in env for t in a.targets):
+            if isinstance(a.value, ast.Constant) and any(isinstance(t, ast.Name) and (t.id in env or t.id in family) for t in a.targets):
                 st = 'conv'     # a literal default (e.g. theta = 1) needs no conversion
             for t in a.targets:
                 for y in ast.walk(t):
@@ -607,14 +616,26 @@ def check_order_tables(run, rule='R10o'):
             run.violation(rule, 'rpy2r/tr2rpy', 'order name sets agree', 'rpy2r accepts %s but tr2rpy accepts %s' %
                           (sorted(na), sorted(nb)), f=b)
     g = prog.func('base/argcheck:getunit')
-    arms_ok = False
-    for n in own_walk(g.node):
-        if isinstance(n, ast.If):
-            arms, els = if_chain(n)
-            if any(matches('unit == "rad"', t) is not None for (t, _) in arms) and any(matches('unit == "deg"', t) is not None for (t, _) in arms):
-                arms_ok = els is not None and ends_in_raise(els)
-    (run.holds if arms_ok else run.violation)(rule, g.key, 'unit chain ends in raise', 'unknown input unit rejected' if arms_ok else
-                                              'getunit does not raise for an unknown unit', f=g)
+    # every value-returning path of getunit has established unit == 'rad' or unit == 'deg' (so an unknown unit cannot produce a value;
+    # that it does not fall off the end either is R2): decided on the must-facts, whatever the shape of the chain
+    gcfg = CFG(g.node)
+    gfacts = must_facts(gcfg)
+    reach = gcfg.reachable()
+    up = [p for p in g.params if p in ('unit', 'units')]
+    rets = [r for r in own_walk(g.node) if isinstance(r, ast.Return) and r.value is not None and gcfg.node_of(r) is not None and gcfg.node_of(r).id in reach]
+    bad = []
+    for r in rets:
+        fs = gfacts.get(gcfg.node_of(r).id, frozenset())
+        ok = any(fc[1] and up and (matches('%s == "rad"' % up[0], fc[2].ast) is not None or matches('%s == "deg"' % up[0], fc[2].ast) is not None) for fc in fs)
+        if not ok:
+            bad.append(r)
+    if not rets or not up:
+        run.error('R10o: getunit: no value return / unit parameter found')
+    elif bad:
+        run.violation(rule, g.key, 'unit chain ends in raise', 'getunit returns a value on a path where the unit is neither tested to be "rad" nor '
+                      '"deg": an unknown unit is silently accepted', f=g, node=bad[0])
+    else:
+        run.holds(rule, g.key, 'unit chain ends in raise', 'every value path has established the unit to be rad or deg: unknown input unit rejected', f=g)
 
 
 def run_r10(run, funcs, rule='R10'):
